@@ -108,6 +108,42 @@ pub fn dyadic_text(n: i64, d: u32) -> String {
     format!("{}{}.{}", if neg { "-" } else { "" }, int, frac)
 }
 
+/// exact decimal text of the integer n * 2^e
+pub fn pow2_multiple_text(n: i64, e: u32) -> String {
+    // little-endian base 10^9 limbs
+    let mut limbs: Vec<u64> = Vec::new();
+    let mut m = n.unsigned_abs();
+    while m > 0 {
+        limbs.push(m % 1_000_000_000);
+        m /= 1_000_000_000;
+    }
+    for _ in 0..e {
+        let mut carry = 0u64;
+        for l in limbs.iter_mut() {
+            let t = *l * 2 + carry;
+            *l = t % 1_000_000_000;
+            carry = t / 1_000_000_000;
+        }
+        if carry > 0 {
+            limbs.push(carry);
+        }
+    }
+    let mut text = String::new();
+    if n < 0 {
+        text.push('-');
+    }
+    match limbs.last() {
+        None => text.push('0'),
+        Some(top) => {
+            text.push_str(&format!("{}", top));
+            for l in limbs.iter().rev().skip(1) {
+                text.push_str(&format!("{:09}", l));
+            }
+        }
+    }
+    text
+}
+
 impl<'a> Printer<'a> {
     pub fn new(opts: &'a PrintOpts) -> Self {
         Printer {
@@ -442,6 +478,10 @@ impl<'a> Printer<'a> {
             // literal text written as is (C19: numbers beyond what the case JSON / the 32-bit model can carry)
             "raw" => s(e, "text").to_string(),
             "float" => dyadic_text(e["n"].as_i64().unwrap(), e["d"].as_u64().unwrap() as u32),
+            // the float n * 2^e (e >= 1) written out in full: `<decimal integer>.0` (C01 numeric limits); additive node kind
+            "fbig" => format!("{}.0", pow2_multiple_text(e["n"].as_i64().unwrap(), e["e"].as_u64().unwrap() as u32)),
+            // redundant parentheses that the case asks for (C01: a parenthesised method literal in a blob field); additive node kind
+            "paren" => format!("({})", self.expr(&e["e"])),
             "str" => format!("\"{}\"", s(e, "v")),
             "bool" => format!("{}", e["v"].as_bool().unwrap()),
             "nil" => "nil".into(),
@@ -569,7 +609,8 @@ impl<'a> Printer<'a> {
         let konst = s(st, "kind") == "const";
         let is_fn = st["e"]["k"] == "fn";
         // annotation sites: variable definitions of non-function values
-        let annotated = Self::has_ty(&st["ty"]) && !is_fn && self.annotate();
+        // (optional field `tyfn` (C09 declaration kinds): a function definition that keeps its written type; absent = false)
+        let annotated = Self::has_ty(&st["ty"]) && (!is_fn || b(st, "tyfn")) && self.annotate();
         let value = self.expr(&st["e"]);
         if annotated {
             format!("{}: {} {} {}", name, self.ty(&st["ty"]), if konst { ":" } else { "=" }, value)
